@@ -367,7 +367,7 @@ theorem resize_diff (s : Scr) (w h : Int) (hne : ¬ (w = s.w ∧ h = s.h)) :
   simp [Scr.resize, hne]
 
 /-- Show: the invariant is kept, and if the display was trusted (or the size change is noticed now) it is right afterwards -/
-theorem show_step {c : DrawCfg} (hrw : RwOk c.rw) (hct : c.cornerTrick = false) {wd : World} (inv : WInv c wd) :
+theorem show_step {c : DrawCfg} (hrw : RwOk c.rw) (hct : c.Plain) {wd : World} (inv : WInv c wd) :
     WInv c (wd.step c .show) ∧
     ((wd.trusted = true ∨ ¬ (wd.sw.ttyw = wd.sw.s.w ∧ wd.sw.ttyh = wd.sw.s.h)) → Displays c (wd.step c .show)) := by
   have hfini := inv.fini
@@ -479,7 +479,7 @@ theorem prep_ok {c : DrawCfg} (hrw : RwOk c.rw) (s : Scr) (w h : Int) (hb : BufO
   · exact ok2.2
 
 /-- Sync: whatever the display held before, afterwards it is right and trusted -/
-theorem sync_step {c : DrawCfg} (hrw : RwOk c.rw) (hct : c.cornerTrick = false) {wd : World} (inv : WInv c wd) :
+theorem sync_step {c : DrawCfg} (hrw : RwOk c.rw) (hct : c.Plain) {wd : World} (inv : WInv c wd) :
     WInv c (wd.step c .sync) ∧ Displays c (wd.step c .sync) ∧ (wd.step c .sync).trusted = true ∧
     (wd.step c .sync).d = some (wd.step c .sync).sw.s.style := by
   have hfini := inv.fini
@@ -507,7 +507,7 @@ theorem sync_step {c : DrawCfg} (hrw : RwOk c.rw) (hct : c.cornerTrick = false) 
   · simp only [dp.style_same, e3]
 
 /-- a window resize that reaches the library (mainLoop's resize branch): afterwards the display is right and trusted -/
-theorem notify_step {c : DrawCfg} (hrw : RwOk c.rw) (hct : c.cornerTrick = false) {wd : World} (inv : WInv c wd) (w h : Int) :
+theorem notify_step {c : DrawCfg} (hrw : RwOk c.rw) (hct : c.Plain) {wd : World} (inv : WInv c wd) (w h : Int) :
     WInv c (wd.step c (.ttyResizeNotify w h)) ∧ Displays c (wd.step c (.ttyResizeNotify w h)) ∧
     (wd.step c (.ttyResizeNotify w h)).trusted = true ∧
     (wd.step c (.ttyResizeNotify w h)).d = some (wd.step c (.ttyResizeNotify w h)).sw.s.style := by
@@ -547,7 +547,7 @@ theorem winv_bufop {c : DrawCfg} {wd : World} (inv : WInv c wd) (b' : Buf) (hb :
     fr := fun h x y hr => hb.dirty x y (inv.fr h x y (by simpa [inRange_iff, hb.w, hb.h] using hr)) }
 
 /-- every operation preserves the world invariant -/
-theorem step_inv {c : DrawCfg} (hrw : RwOk c.rw) (hct : c.cornerTrick = false) {wd : World} (inv : WInv c wd) (op : ScrOp)
+theorem step_inv {c : DrawCfg} (hrw : RwOk c.rw) (hct : c.Plain) {wd : World} (inv : WInv c wd) (op : ScrOp)
     (hv : op.Valid c) : WInv c (wd.step c op) := by
   cases op with
   | setContent x y m comb st =>
@@ -555,6 +555,10 @@ theorem step_inv {c : DrawCfg} (hrw : RwOk c.rw) (hct : c.cornerTrick = false) {
   | fill r st =>
     exact winv_bufop inv _ (bufStep_fill c.rw _ r st hv.1 hv.2)
   | lockRegion x y w h lock =>
+    have e : wd.step c (.lockRegion x y w h lock) =
+        { wd with sw := { wd.sw with s := { wd.sw.s with cells := lockRows wd.sw.s.cells x y w lock h.toNat } } } := by
+      simp [World.step, ScrW.step, hct.ng, ATerm.applyAll]
+    rw [e]
     exact winv_bufop inv _ (bufStep_lockRows c.rw _ x y w lock _)
   | setStyle st =>
     have hf := inv.fini
@@ -623,7 +627,7 @@ theorem init_inv {c : DrawCfg} (hrw : RwOk c.rw) (w h : Int) : WInv c (World.ini
     · rw [resize_cells _ _ _ _ _ hh]; split <;> rfl
 
 /-- every world reachable from Init by valid operations satisfies the invariant -/
-theorem reach_inv {c : DrawCfg} (hrw : RwOk c.rw) (hct : c.cornerTrick = false) (w h : Int) (ops : List ScrOp)
+theorem reach_inv {c : DrawCfg} (hrw : RwOk c.rw) (hct : c.Plain) (w h : Int) (ops : List ScrOp)
     (hv : ∀ op ∈ ops, op.Valid c) : WInv c ((World.init w h).run c ops) := by
   suffices H : ∀ wd, WInv c wd → WInv c (wd.run c ops) from H _ (init_inv hrw w h)
   induction ops with
@@ -639,7 +643,7 @@ namespace Tcell
 open Buf
 
 /-- which cells a Show sends payload to, when the display is trusted and the size is unchanged -/
-theorem show_writes {c : DrawCfg} (hrw : RwOk c.rw) (hct : c.cornerTrick = false) {wd : World} (inv : WInv c wd)
+theorem show_writes {c : DrawCfg} (hrw : RwOk c.rw) (hct : c.Plain) {wd : World} (inv : WInv c wd)
     (htr : wd.trusted = true) (hsz : wd.sw.ttyw = wd.sw.s.w ∧ wd.sw.ttyh = wd.sw.s.h) :
     ∃ ws, (wd.step c .show).t.writes = ws ++ wd.t.writes ∧
       ∀ p ∈ ws, wd.sw.s.cells.dirty p.1 p.2 = true ∧ visited c.rw wd.sw.s.cells p.1 p.2 = true := by
